@@ -184,7 +184,7 @@ def run(F, R):
     # ---------------------------------------------------------------- R6 handler panic census
     R.rule("C17-R6", "every panic-capable site of the request handlers is either a by-design assertion on the configured expectations (individually allowlisted) or reported")
     allow = json.load(open(os.path.join(facts.VERIF, "tables", "panic_allowlist.json")))["entries"]
-    idx = {(e["body"], e["site"]): e for e in allow}
+    idx = {(e["body"], e["site"]): e for e in allow if e.get("crate") == "mock_omaha_server"}
     roots = [b["id"] for b in s.bodies if b["id"].startswith("mock_omaha_server::handle_") or b["id"].startswith("mock_omaha_server::make_etag") or b["name"].endswith("PrivateKeys::find")]
     reach = census.reachable_bodies(W, roots)
     reach = [r for r in reach if r.startswith("mock_omaha_server::")]
@@ -208,7 +208,7 @@ def run(F, R):
         for st in census.panic_sites(bv):
             if not _infallible_json(bv, st):
                 used.add((bv.name, "%s#%d" % (st["desc"], st["ord"])))
-    stale = [k for k in idx if k[0].split("::")[0] in ("make_etag", "handle_omaha_request", "handle_set_responses", "handle_request") and k not in used]
+    stale = [k for k in idx if k not in used]
     R.check("C17-R6", "allowlist-not-stale", not stale, "every server allowlist entry names an existing site", "stale allowlist entries: %s" % stale)
 
 
